@@ -108,7 +108,7 @@ func (c Case) kase() Case { return c }
 // RCase is a receive clause that remembers the element type.
 type RCase[T any] struct{ Case }
 
-func RecvCase[T any](c *Chan[T]) RCase[T] { return RCase[T]{Case{core: coreOf(c)}} }
+func RecvCase[T any](c *Chan[T]) RCase[T]  { return RCase[T]{Case{core: coreOf(c)}} }
 func SendCase[T any](c *Chan[T], v T) Case { return Case{core: coreOf(c), send: true, val: v} }
 
 // Sel is the outcome of a select.
@@ -152,7 +152,7 @@ func Select(hasDefault bool, cases ...Caser) Sel {
 
 type chanError string
 
-func (e chanError) Error() string  { return string(e) }
+func (e chanError) Error() string { return string(e) }
 func (e chanError) RuntimeError() {}
 
 func (c *Chan[T]) Send(v T) { Select(false, SendCase(c, v)) }
